@@ -246,4 +246,542 @@ theorem build_rep {s : TrieBuf.State} {b : Buf} (hl : LInv s) (h : BufRel s b) :
   intro pk
   exact (TrieBuf.build_abs (inv_norm hl) pk).symm
 
+/-! ## C10's protocol over C09's concrete data
+
+`Model/Persist.lean` transition for transition (its `Cfg` fixed to the repaired code: `revive`,
+`joinFirst`); the only differences are the data: `TrieBuf.State` layers instead of `Buf`, leaves
+instead of `Content`, `TrieBuf.apply` for the three change calls, `Trie.build (TrieBuf.entries st)`
+for what the snapshot thread writes. -/
+
+inductive CFile where
+  | partial_
+  | complete (t : List Leaf)
+
+abbrev CFS := Name → Option CFile
+
+def csetF (fs : CFS) (n : Name) (f : Option CFile) : CFS := fun m => if m = n then f else fs m
+
+/-- `Trie::open(path)` -/
+def creadPath (fs : CFS) : Option (List Leaf) :=
+  match fs .path with
+  | some (.complete t) => some t
+  | _ => none
+
+structure CWriter where
+  pc : PC
+  /-- the file the thread writes: `TrieBuilder` fed with `entries()` of the cloned `TrieBuf` -/
+  out : List Leaf
+  result : Option (List Leaf)
+
+structure CWorld where
+  /-- the layers `snap`, `btree`, `grave`, `dirty` of C09's state (`file` / `inflight` belong to
+      C09's sequential writer and are not used: the file system and the writer are explicit here) -/
+  st : TrieBuf.State
+  writer : Option CWriter
+  fs : CFS
+  phase : Phase
+  crashed : Bool
+
+inductive CAct where
+  | add (k : List Nat) (t : Text) (f : Nat) (tm : Option Nat)
+  | update (k : List Nat) (t : Text) (f tm : Nat)
+  | remove (k : List Nat) (t : Text)
+  | flush | reopen | close | d | open_ | w | crash
+
+/-- `sync` adopting the writer's result -/
+def adopt (s : TrieBuf.State) (t : List Leaf) : TrieBuf.State := { s with snap := t, btree := [], grave := [] }
+/-- `sync` re-reading the file -/
+def reload (s : TrieBuf.State) (t : List Leaf) : TrieBuf.State := { s with snap := t }
+/-- `TrieBuf::open` -/
+def freshSt (t : List Leaf) : TrieBuf.State := { TrieBuf.initFile with snap := t, file := t }
+
+def cinit (t0 : List Leaf) (tmp : Option CFile) : CWorld :=
+  { st := freshSt t0, writer := none,
+    fs := fun n => match n with | .path => some (.complete t0) | .tmp => tmp,
+    phase := .run, crashed := false }
+
+def csync (w : CWorld) : CWorld :=
+  match w.writer with
+  | some wr =>
+    if wr.pc ≠ .finished then w
+    else match wr.result with
+      | some t =>
+        if w.st.dirty then { w with writer := none }
+        else { w with writer := none, st := adopt w.st t }
+      | none => { w with writer := none }
+  | none =>
+    match creadPath w.fs with
+    | some c => { w with st := reload w.st c }
+    | none => w
+
+def ccheckpoint (w : CWorld) : CWorld :=
+  if w.writer.isSome then w
+  else if !w.st.dirty then w
+  else { w with writer := some { pc := .start, out := Trie.build (TrieBuf.entries w.st), result := none },
+                st := { w.st with dirty := false } }
+
+def cwstep (wr : CWriter) (fs : CFS) : Option (CWriter × CFS) :=
+  match wr.pc with
+  | .start => some ({ wr with pc := .collected }, fs)
+  | .collected => some ({ wr with pc := .created }, csetF fs .tmp (some .partial_))
+  | .created => some ({ wr with pc := .written }, csetF fs .tmp (some .partial_))
+  | .written => some ({ wr with pc := .flushed }, csetF fs .tmp (some (.complete wr.out)))
+  | .flushed => some ({ wr with pc := .synced }, fs)
+  | .synced =>
+    match fs .tmp with
+    | some f => some ({ wr with pc := .renamed }, csetF (csetF fs .path (some f)) .tmp none)
+    | none => some ({ wr with pc := .finished, result := none }, fs)
+  | .renamed => some ({ wr with pc := .built }, fs)
+  | .built => some ({ wr with pc := .reopened, result := creadPath fs }, fs)
+  | .reopened => some ({ wr with pc := .finished }, fs)
+  | .finished => none
+
+def cwriterDone (w : CWorld) : Bool :=
+  match w.writer with
+  | none => true
+  | some wr => wr.pc == .finished
+
+def cstep (w : CWorld) (a : CAct) : Option CWorld :=
+  if w.crashed then none else
+  match a with
+  | .crash => some { w with crashed := true }
+  | .w =>
+    match w.writer with
+    | some wr =>
+      match cwstep wr w.fs with
+      | some (wr', fs') => some { w with writer := some wr', fs := fs' }
+      | none => none
+    | none => none
+  | .add k t f tm => if w.phase = .run then some { w with st := TrieBuf.apply w.st (.add k t f tm) } else none
+  | .update k t f tm => if w.phase = .run then some { w with st := TrieBuf.apply w.st (.update k t f tm) } else none
+  | .remove k t => if w.phase = .run then some { w with st := TrieBuf.apply w.st (.remove k t) } else none
+  | .flush => if w.phase = .run then some (ccheckpoint w) else none
+  | .reopen => if w.phase = .run then some (csync w) else none
+  | .close => if w.phase = .run then some { w with phase := .dJoin0 } else none
+  | .d =>
+    match w.phase with
+    | .dJoin0 => if cwriterDone w then some { w with writer := none, phase := .dSync } else none
+    | .dSync => some { csync w with phase := .dFlush }
+    | .dFlush => some { ccheckpoint w with phase := .dJoin }
+    | .dJoin => if cwriterDone w then some { w with writer := none, phase := .closed } else none
+    | _ => none
+  | .open_ =>
+    if w.phase = .closed then
+      match creadPath w.fs with
+      | some c => some { w with st := freshSt c, phase := .run }
+      | none => none
+    else none
+
+def crun (w : CWorld) : List CAct → Option CWorld
+  | [] => some w
+  | a :: as =>
+    match cstep w a with
+    | some w' => crun w' as
+    | none => none
+
+/-- the abstract action a concrete action is -/
+def encAct : CAct → Act
+  | .add k t f tm => .add (encK (k, t)) (encV (f, tm.getD 0))
+  | .update k t f tm => .update (encK (k, t)) (encV (f, tm))
+  | .remove k t => .remove (encK (k, t))
+  | .flush => .flush
+  | .reopen => .reopen
+  | .close => .close
+  | .d => .d
+  | .open_ => .open_
+  | .w => .w
+  | .crash => .crash
+
+/-- the `DictionaryMut` call a concrete action is (C09's `Op`) -/
+def opOf : CAct → Option MapSpec.Op
+  | .add k t f tm => some (.add k t f tm)
+  | .update k t f tm => some (.update k t f tm)
+  | .remove k t => some (.remove k t)
+  | _ => none
+
+/-- C09's precondition on calls: a phrase does not begin with U+10FFFF (class MaxCodePointPhrase) -/
+def CActOk : CAct → Prop
+  | .add _ t _ _ => TrieBuf.inRange t = true
+  | .update _ t _ _ => TrieBuf.inRange t = true
+  | _ => True
+
+/-- the repaired code: tombstone lifted by add/update (C09's F09 fix), `Drop` joins first (F12 fix) -/
+def cfgR : Cfg := { revive := true, joinFirst := true }
+
+/-! ## the simulation -/
+
+def ORel {α β : Type} (r : α → β → Prop) : Option α → Option β → Prop
+  | none, none => True
+  | some a, some b => r a b
+  | _, _ => False
+
+/-- a concrete trie file against an abstract content: well-formed, and it denotes that content -/
+def TRel (t : List Leaf) (c : Content) : Prop := Trie.SnapOk t ∧ Rep (TrieBuf.baseGet t) c
+
+def FileRel : CFile → FileC → Prop
+  | .partial_, .partial_ => True
+  | .complete t, .complete c => TRel t c
+  | _, _ => False
+
+def FSRel (cfs : CFS) (fs : FS) : Prop := ∀ n, ORel FileRel (cfs n) (fs n)
+
+structure WRel (cwr : CWriter) (wr : Writer) : Prop where
+  pc : cwr.pc = wr.pc
+  out : TRel cwr.out wr.snap
+  result : ORel TRel cwr.result wr.result
+
+structure Sim (cw : CWorld) (w : World) : Prop where
+  linv : LInv cw.st
+  buf : BufRel cw.st w.buf
+  writer : ORel WRel cw.writer w.writer
+  fs : FSRel cw.fs w.fs
+  phase : cw.phase = w.phase
+  crashed : cw.crashed = w.crashed
+
+theorem readPath_rel {cfs : CFS} {fs : FS} (h : FSRel cfs fs) : ORel TRel (creadPath cfs) (readPath fs) := by
+  have hp := h .path
+  unfold creadPath readPath
+  cases h1 : cfs .path with
+  | none =>
+    cases h2 : fs .path with
+    | none => trivial
+    | some f => rw [h1, h2] at hp; exact hp.elim
+  | some cf =>
+    cases h2 : fs .path with
+    | none => rw [h1, h2] at hp; exact hp.elim
+    | some f =>
+      rw [h1, h2] at hp
+      cases cf with
+      | partial_ => cases f with
+        | partial_ => trivial
+        | complete c => exact hp.elim
+      | complete t => cases f with
+        | partial_ => exact hp.elim
+        | complete c => exact hp
+
+theorem setF_rel {cfs : CFS} {fs : FS} (h : FSRel cfs fs) (m : Name) {cf : Option CFile} {f : Option FileC}
+    (hf : ORel FileRel cf f) : FSRel (csetF cfs m cf) (setF fs m f) := by
+  intro n
+  unfold csetF setF
+  by_cases e : n = m
+  · simp only [e, if_true]; exact hf
+  · simp only [e, if_false]; exact h n
+
+theorem rep_empty_bt : Rep (TrieBuf.btGet []) (fun _ => none) := fun _ => rfl
+theorem repG_empty : RepG [] (fun _ => false) := fun _ => rfl
+
+theorem sim_adopt {s : TrieBuf.State} {b : Buf} {t : List Leaf} {c : Content} (hb : BufRel s b) (ht : TRel t c) :
+    LInv (adopt s t) ∧ BufRel (adopt s t) { b with trie := c, btree := fun _ => none, grave := fun _ => false } :=
+  ⟨⟨List.Pairwise.nil, fun _ h => by simp [adopt] at h, ht.1⟩, ⟨ht.2, rep_empty_bt, repG_empty, hb.dirty⟩⟩
+
+theorem sim_reload {s : TrieBuf.State} {b : Buf} {t : List Leaf} {c : Content} (hl : LInv s) (hb : BufRel s b)
+    (ht : TRel t c) : LInv (reload s t) ∧ BufRel (reload s t) { b with trie := c } :=
+  ⟨⟨hl.bt, hl.range, ht.1⟩, ⟨ht.2, hb.btree, hb.grave, hb.dirty⟩⟩
+
+theorem sim_fresh {t : List Leaf} {c : Content} (ht : TRel t c) (g : Nat) :
+    LInv (freshSt t) ∧ BufRel (freshSt t) (Buf.fresh c g) :=
+  ⟨⟨List.Pairwise.nil, fun _ h => by simp [freshSt, TrieBuf.initFile, TrieBuf.initMem] at h, ht.1⟩,
+   ⟨ht.2, rep_empty_bt, repG_empty, rfl⟩⟩
+
+theorem sim_sync {cw : CWorld} {w : World} (h : Sim cw w) : Sim (csync cw) (sync w) := by
+  obtain ⟨st, cwr, cfs, cph, ccr⟩ := cw
+  obtain ⟨buf, wr, fs, ph, cr⟩ := w
+  obtain ⟨hl, hb, hw, hf, hp, hc⟩ := h
+  simp only at hl hb hw hf hp hc
+  unfold csync sync
+  cases cwr with
+  | none =>
+    cases wr with
+    | some x => exact hw.elim
+    | none =>
+      simp only
+      have hr := readPath_rel hf
+      cases h1 : creadPath cfs with
+      | none =>
+        cases h2 : readPath fs with
+        | none => exact ⟨hl, hb, hw, hf, hp, hc⟩
+        | some c => rw [h1, h2] at hr; exact hr.elim
+      | some t =>
+        cases h2 : readPath fs with
+        | none => rw [h1, h2] at hr; exact hr.elim
+        | some c =>
+          rw [h1, h2] at hr
+          have := sim_reload hl hb hr
+          exact ⟨this.1, this.2, hw, hf, hp, hc⟩
+  | some cx =>
+    cases wr with
+    | none => exact hw.elim
+    | some x =>
+      have hw' : WRel cx x := hw
+      simp only
+      rw [hw'.pc]
+      by_cases hpc : x.pc = .finished
+      · simp only [hpc, ne_eq, not_true_eq_false, if_false]
+        have hres := hw'.result
+        cases h1 : cx.result with
+        | none =>
+          cases h2 : x.result with
+          | none => exact ⟨hl, hb, trivial, hf, hp, hc⟩
+          | some c => rw [h1, h2] at hres; exact hres.elim
+        | some t =>
+          cases h2 : x.result with
+          | none => rw [h1, h2] at hres; exact hres.elim
+          | some c =>
+            rw [h1, h2] at hres
+            simp only
+            rw [hb.dirty]
+            cases hd : st.dirty with
+            | true => exact ⟨hl, hb, trivial, hf, hp, hc⟩
+            | false =>
+              simp only [Bool.false_eq_true, if_false]
+              exact ⟨(sim_adopt hb hres).1, ⟨hres.2, rep_empty_bt, repG_empty, by simp [adopt, hd]⟩, trivial, hf, hp, hc⟩
+      · simp only [hpc, ne_eq, not_false_eq_true, if_true]
+        exact ⟨hl, hb, hw, hf, hp, hc⟩
+
+theorem sim_checkpoint {cw : CWorld} {w : World} (h : Sim cw w) : Sim (ccheckpoint cw) (checkpoint w) := by
+  obtain ⟨st, cwr, cfs, cph, ccr⟩ := cw
+  obtain ⟨buf, wr, fs, ph, cr⟩ := w
+  obtain ⟨hl, hb, hw, hf, hp, hc⟩ := h
+  simp only at hl hb hw hf hp hc
+  unfold ccheckpoint checkpoint
+  cases cwr with
+  | some cx =>
+    cases wr with
+    | none => exact hw.elim
+    | some x => exact ⟨hl, hb, hw, hf, hp, hc⟩
+  | none =>
+    cases wr with
+    | some x => exact hw.elim
+    | none =>
+      simp only [Option.isSome_none, Bool.false_eq_true, if_false]
+      rw [hb.dirty]
+      cases hd : st.dirty with
+      | false => exact ⟨hl, hb, hw, hf, hp, hc⟩
+      | true =>
+        simp only [Bool.not_true, Bool.false_eq_true, if_false]
+        have hbr := build_rep hl hb
+        exact ⟨⟨hl.bt, hl.range, hl.snap⟩, ⟨hb.trie, hb.btree, hb.grave, rfl⟩, ⟨rfl, hbr, trivial⟩, hf, hp, hc⟩
+
+theorem sim_wstep {cwr cwr' : CWriter} {wr : Writer} {cfs cfs' : CFS} {fs : FS} (hw : WRel cwr wr) (hf : FSRel cfs fs)
+    (h : cwstep cwr cfs = some (cwr', cfs')) :
+    ∃ wr' fs', wstep wr fs = some (wr', fs') ∧ WRel cwr' wr' ∧ FSRel cfs' fs' := by
+  obtain ⟨cpc, cout, cres⟩ := cwr
+  obtain ⟨pc, snap, res, gen, old⟩ := wr
+  obtain ⟨hpc, hout, hres⟩ := hw
+  simp only at hpc hout hres
+  subst hpc
+  unfold cwstep at h
+  unfold wstep
+  cases cpc <;> simp only at h ⊢
+  case start => cases h; exact ⟨_, _, rfl, ⟨rfl, hout, hres⟩, hf⟩
+  case collected => cases h; exact ⟨_, _, rfl, ⟨rfl, hout, hres⟩, setF_rel hf .tmp True.intro⟩
+  case created => cases h; exact ⟨_, _, rfl, ⟨rfl, hout, hres⟩, setF_rel hf .tmp True.intro⟩
+  case written => cases h; exact ⟨_, _, rfl, ⟨rfl, hout, hres⟩, setF_rel hf .tmp hout⟩
+  case flushed => cases h; exact ⟨_, _, rfl, ⟨rfl, hout, hres⟩, hf⟩
+  case synced =>
+    have ht := hf .tmp
+    cases h1 : cfs .tmp with
+    | none =>
+      cases h2 : fs .tmp with
+      | some f => rw [h1, h2] at ht; exact ht.elim
+      | none =>
+        rw [h1] at h
+        cases h
+        exact ⟨_, _, rfl, ⟨rfl, hout, True.intro⟩, hf⟩
+    | some cf =>
+      cases h2 : fs .tmp with
+      | none => rw [h1, h2] at ht; exact ht.elim
+      | some f =>
+        rw [h1] at h
+        rw [h1, h2] at ht
+        cases h
+        exact ⟨_, _, rfl, ⟨rfl, hout, hres⟩, setF_rel (setF_rel hf .path ht) .tmp True.intro⟩
+  case renamed => cases h; exact ⟨_, _, rfl, ⟨rfl, hout, hres⟩, hf⟩
+  case built => cases h; exact ⟨_, _, rfl, ⟨rfl, hout, readPath_rel hf⟩, hf⟩
+  case reopened => cases h; exact ⟨_, _, rfl, ⟨rfl, hout, hres⟩, hf⟩
+  case finished => cases h
+
+theorem sim_add {s : TrieBuf.State} {b : Buf} (hl : LInv s) (hb : BufRel s b) (k : List Nat) (t : Text) (f : Nat)
+    (tm : Option Nat) (hr : TrieBuf.inRange t = true) :
+    LInv (TrieBuf.apply s (.add k t f tm)) ∧
+      BufRel (TrieBuf.apply s (.add k t f tm)) (b.add cfgR (encK (k, t)) (encV (f, tm.getD 0))).1 := by
+  simp only [TrieBuf.apply, Buf.add]
+  rw [addOk_live hl hb]
+  cases (b.live (encK (k, t))).isSome with
+  | true => exact ⟨hl, hb⟩
+  | false => exact ⟨linv_put hl (k, t) _ hr, bufRel_put cfgR rfl hb hl.bt (k, t) _⟩
+
+theorem sim_update {s : TrieBuf.State} {b : Buf} (hl : LInv s) (hb : BufRel s b) (k : List Nat) (t : Text) (f tm : Nat)
+    (hr : TrieBuf.inRange t = true) :
+    LInv (TrieBuf.apply s (.update k t f tm)) ∧
+      BufRel (TrieBuf.apply s (.update k t f tm)) (b.put cfgR (encK (k, t)) (encV (f, tm))) :=
+  ⟨linv_put hl (k, t) _ hr, bufRel_put cfgR rfl hb hl.bt (k, t) _⟩
+
+theorem sim_remove {s : TrieBuf.State} {b : Buf} (hl : LInv s) (hb : BufRel s b) (k : List Nat) (t : Text) :
+    LInv (TrieBuf.apply s (.remove k t)) ∧ BufRel (TrieBuf.apply s (.remove k t)) (b.remove (encK (k, t))) := by
+  rw [TrieBuf.apply_remove]
+  exact ⟨linv_remove hl (k, t), bufRel_remove hb hl.bt (k, t)⟩
+
+theorem writerDone_rel {cw : CWorld} {w : World} (h : Sim cw w) : cwriterDone cw = writerDone w := by
+  obtain ⟨st, cwr, cfs, cph, ccr⟩ := cw
+  obtain ⟨buf, wr, fs, ph, cr⟩ := w
+  have hw := h.writer
+  simp only at hw
+  unfold cwriterDone writerDone
+  cases cwr with
+  | none =>
+    cases wr with
+    | none => rfl
+    | some x => exact hw.elim
+  | some cx =>
+    cases wr with
+    | none => exact hw.elim
+    | some x =>
+      have : WRel cx x := hw
+      simp only [this.pc]
+
+/-- **forward simulation**: every step of C10's protocol over C09's concrete layers is the
+    corresponding step of C10's abstract model (for the repaired code), and the abstraction relation
+    is kept -/
+theorem sim_step {cw cw' : CWorld} {w : World} {a : CAct} (hs : Sim cw w) (ha : CActOk a)
+    (h : cstep cw a = some cw') : ∃ w', step cfgR w (encAct a) = some w' ∧ Sim cw' w' := by
+  have hdone := writerDone_rel hs
+  have hsync := sim_sync hs
+  have hck := sim_checkpoint hs
+  obtain ⟨st, cwr, cfs, cph, ccr⟩ := cw
+  obtain ⟨buf, wr, fs, ph, cr⟩ := w
+  obtain ⟨hl, hb, hw, hf, hp, hc⟩ := hs
+  simp only at hl hb hw hf hp hc
+  subst hp
+  subst hc
+  unfold cstep at h
+  unfold step
+  cases ccr with
+  | true => simp at h
+  | false =>
+    simp only [Bool.false_eq_true, if_false] at h ⊢
+    cases a with
+    | crash =>
+      simp only [encAct]
+      cases h
+      exact ⟨_, rfl, ⟨hl, hb, hw, hf, rfl, rfl⟩⟩
+    | w =>
+      simp only [encAct]
+      cases cwr with
+      | none => simp at h
+      | some cx =>
+        cases wr with
+        | none => exact hw.elim
+        | some x =>
+          have hw' : WRel cx x := hw
+          simp only at h ⊢
+          cases h3 : cwstep cx cfs with
+          | none => rw [h3] at h; simp at h
+          | some p =>
+            obtain ⟨cx', cfs'⟩ := p
+            rw [h3] at h
+            simp only at h
+            cases h
+            obtain ⟨x', fs', e, hwn, hfn⟩ := sim_wstep hw' hf h3
+            rw [e]
+            exact ⟨_, rfl, ⟨hl, hb, hwn, hfn, rfl, rfl⟩⟩
+    | add k t f tm =>
+      simp only [encAct]
+      by_cases hrun : cph = .run
+      · simp only [hrun, if_true] at h ⊢
+        cases h
+        have := sim_add hl hb k t f tm ha
+        exact ⟨_, rfl, ⟨this.1, this.2, hw, hf, rfl, rfl⟩⟩
+      · simp [hrun] at h
+    | update k t f tm =>
+      simp only [encAct]
+      by_cases hrun : cph = .run
+      · simp only [hrun, if_true] at h ⊢
+        cases h
+        have := sim_update hl hb k t f tm ha
+        exact ⟨_, rfl, ⟨this.1, this.2, hw, hf, rfl, rfl⟩⟩
+      · simp [hrun] at h
+    | remove k t =>
+      simp only [encAct]
+      by_cases hrun : cph = .run
+      · simp only [hrun, if_true] at h ⊢
+        cases h
+        have := sim_remove hl hb k t
+        exact ⟨_, rfl, ⟨this.1, this.2, hw, hf, rfl, rfl⟩⟩
+      · simp [hrun] at h
+    | flush =>
+      simp only [encAct]
+      by_cases hrun : cph = .run
+      · subst hrun
+        simp only [↓reduceIte] at h ⊢
+        cases h
+        exact ⟨_, rfl, hck⟩
+      · simp [hrun] at h
+    | reopen =>
+      simp only [encAct]
+      by_cases hrun : cph = .run
+      · subst hrun
+        simp only [↓reduceIte] at h ⊢
+        cases h
+        exact ⟨_, rfl, hsync⟩
+      · simp [hrun] at h
+    | close =>
+      simp only [encAct]
+      by_cases hrun : cph = .run
+      · simp only [hrun, if_true] at h ⊢
+        cases h
+        exact ⟨_, rfl, ⟨hl, hb, hw, hf, rfl, rfl⟩⟩
+      · simp [hrun] at h
+    | d =>
+      simp only [encAct]
+      cases cph with
+      | dJoin0 =>
+        simp only at h ⊢
+        rw [← hdone]
+        cases hd : cwriterDone _ with
+        | false => rw [hd] at h; simp at h
+        | true =>
+          rw [hd] at h
+          simp only [if_true] at h ⊢
+          cases h
+          exact ⟨_, rfl, ⟨hl, hb, True.intro, hf, rfl, rfl⟩⟩
+      | dSync =>
+        simp only at h ⊢
+        cases h
+        exact ⟨_, rfl, ⟨hsync.linv, hsync.buf, hsync.writer, hsync.fs, rfl, hsync.crashed⟩⟩
+      | dFlush =>
+        simp only at h ⊢
+        cases h
+        exact ⟨_, rfl, ⟨hck.linv, hck.buf, hck.writer, hck.fs, rfl, hck.crashed⟩⟩
+      | dJoin =>
+        simp only at h ⊢
+        rw [← hdone]
+        cases hd : cwriterDone _ with
+        | false => rw [hd] at h; simp at h
+        | true =>
+          rw [hd] at h
+          simp only [if_true] at h ⊢
+          cases h
+          exact ⟨_, rfl, ⟨hl, hb, True.intro, hf, rfl, rfl⟩⟩
+      | run => simp at h
+      | closed => simp at h
+    | open_ =>
+      simp only [encAct]
+      by_cases hcl : cph = .closed
+      · simp only [hcl, if_true] at h ⊢
+        have hr := readPath_rel hf
+        cases h1 : creadPath cfs with
+        | none => rw [h1] at h; simp at h
+        | some t =>
+          cases h2 : readPath fs with
+          | none => rw [h1, h2] at hr; exact hr.elim
+          | some c =>
+            rw [h1, h2] at hr
+            rw [h1] at h
+            simp only at h
+            cases h
+            have := sim_fresh hr buf.gen
+            exact ⟨_, rfl, ⟨this.1, this.2, hw, hf, rfl, rfl⟩⟩
+      · simp [hcl] at h
+
 end Chewing.DictLink
